@@ -121,7 +121,7 @@ def correspond(ctx):
                 dis.append({'case': {'target': target, 'k': k, 'krho': krho}, 'what': 'tabulating target %s raised %s: %s' % (target, type(e).__name__, str(e)[:100])}); continue
             want = (k + 1, krho + 1 if target not in ('LAMMPS', 'DL_POLY', 'GULP', 'excel') else None)
             if got != want: dis.append({'case': {'target': target, 'k': k, 'krho': krho}, 'what': 'target %s wrote (nr, nrho) = %r, the [Tabulation] section fixes %r' % (target, got, want)})
-    for fam in ('pair', 'eam', 'nosection', 'emptysection'):
+    for fam in ('pair', 'eam', 'nosection', 'emptysection', 'dlpoly_default'):
         try: f = check_defaults(fam)
         except Exception as e: f = ['tabulating with default grids raised %s: %s' % (type(e).__name__, str(e)[:100])]
         if f: dis.append({'case': {'defaults_after': fam}, 'what': f[0]})
@@ -159,6 +159,11 @@ def defaults_after_nosection(variant):
     return {'nr': tab.nr, 'cutoff': tab.cutoff}
 
 def check_defaults(family):
+    if family == 'dlpoly_default':
+        # the documented default (1001 rows) is not a row count a DL_POLY TABLE can have: the model that leaves nr out is refused, the
+        # default is not quietly replaced by another number
+        r = sc.classify(lambda: sc.tabulate('[Tabulation]\ntarget : DL_POLY\ncutoff : 10.0\n[Pair]\nAl-Al : as.constant 1.0\n'))
+        return [] if r[0] == 'CfgErr' else ['target DL_POLY with nr left out: expected a configuration error (the default 1001 rows cannot be a DL_POLY TABLE), got %s %s' % (r[0], str(r[1])[:60] if r[0] != 'Ok' else '(a table was written)')]
     if family in ('nosection', 'emptysection'):
         got = defaults_after_nosection(family); want = {'nr': 1001, 'cutoff': 10.0}
         return [] if got == want else ['a model with %s, read after other models in the same process, gets the grid %r instead of the documented defaults %r' % (
@@ -266,6 +271,7 @@ def search_cases(rng, n):
     yield {'defaults_after': 'eam'}
     yield {'defaults_after': 'nosection'}
     yield {'defaults_after': 'emptysection'}
+    yield {'defaults_after': 'dlpoly_default'}
     for _ in range(n): yield gen_case(rng)
 def finding_for(case, fails): return None
 def replay_finding(f): return False
